@@ -129,6 +129,15 @@ impl<T: High + Low + Close + Volume> Next<&T> for MoneyFlowIndex {
         }
         self.previous_typical_price = tp;
 
+        // No money flow at all in the window (no volume, or unchanged typical prices): the
+        // ratio would be 0/0, or rounding residue of earlier flows divided by itself.
+        // Drop the residue and return the neutral value, as for the first bar.
+        if self.deque.iter().all(|flow| *flow == 0.0) {
+            self.total_positive_money_flow = 0.0;
+            self.total_negative_money_flow = 0.0;
+            return 50.0;
+        }
+
         self.total_positive_money_flow
             / (self.total_positive_money_flow + self.total_negative_money_flow)
             * 100.0
